@@ -39,12 +39,12 @@ CHECKS = {
                       '(now,taken) abstraction with unmatched #else/#endif rejected, that BinOp::apply is the C semantics of the eight binary operators over u64, that combine_rights groups the operators of one '
                       'precedence level to the left, and that parse_leaf / parse_p2 give literals, true/false, unknown identifiers (0), parenthesised conditions and ! their C value. '
                       'Kani (bounded by shape, operands fully symbolic u64): for 22 concrete token shapes the real parse_p12..parse_p2 functions yield the C value - each binary operator alone, `<` vs `<=` adjacency, six precedence pairs, three associativity cases, ! / !! / !!! and `a < !b`. '
-                      'preprocess_initial_file (Verus): the chain starts empty and the result is Ok only if the chain the entry file leaves behind is empty. '
+                      'preprocess_initial_file (Verus): the chain starts empty and the result is Ok only if the chain the entry file leaves behind is empty. flush_normal (Verus; the one place where collected text lines are handed on): text of a group that is not selected never reaches the output and is not even macro-expanded, text of a selected group is appended after expansion, in order. '
                       'Directive gating (Kani, bounded: one directive shape on a symbolic chain of depth <= 2, heavy callees replaced by recorders): #define / #undef / #include / #pragma / unknown directives have no effect at all inside an unselected group and their effect inside a selected one; '
                       '#if / #ifdef / #ifndef open a group that is selected iff the directive is read and its test holds (the test is not evaluated otherwise); #elif / #else / #endif move the innermost level by the C rule or are rejected when unmatched. '
                       'Thorough tier adds a bounded Kani harness driving ConditionChain through its API (sequences of 5 operations) which also discharges the assumed is_active contract, and two three-level precedence shapes.',
         'level_note': 'Assumed in the quick tier: contract of ConditionChain::is_active (Iterator::all with an un-annotated closure has no usable spec); parse_p12 is uninterpreted inside the Verus unit (recursion through parentheses). '
-                      'NOT decided: routing of every line through preprocess_command (preprocess_included_file / flush_normal), gating beyond chain depth 2 and beyond one token shape per directive, '
+                      'NOT decided: the line-splitting state machine of preprocess_included_file that routes directive lines to preprocess_command and text to flush_normal (let-chains: outside Verus; a Kani harness with 4 symbolic tokens exceeded 23 GB), gating beyond chain depth 2 and beyond one token shape per directive, '
                       'the precedence-climbing glue beyond the 22 + 2 shapes (slice patterns; closures) and macro substitution / defined() in conditions. Assumed: u64::from(bool); preprocess_included_file threads the chain (uninterpreted result).',
     },
     'C13': {
